@@ -186,4 +186,117 @@ theorem pySplit_head_cons (sep : Char) (n : Nat) (c : Char) (r : List Char) (hc 
     | nil => exact absurd hl (pySplit_ne_nil _ _ _)
     | cons a t => exact ⟨a, t, by simp [consHead]⟩
 
+/-! ### split_path: the model's pieces against the spec's segments -/
+
+/-- with `rest_with_last` the pieces after the leading slash are the spec's segments -/
+theorem lemma_segs_rwl (rest : List Char) (m : Nat) (hm : 1 ≤ m) :
+    specSegs (splitAll '/' rest) m true = some (pySplit '/' (m - 1) rest) := by
+  unfold specSegs
+  simp only [if_true]
+  split
+  · rename_i h
+    rw [pySplit_eq_fold '/' (m - 1) rest (by omega)]
+  · rename_i h
+    rw [pySplit_eq_splitAll '/' (m - 1) rest (by omega)]
+
+/-- without it: all pieces if there are at most `m`; one empty piece at position `m+1` is dropped;
+    anything else (a non-empty piece there, or an unsplit remainder) is rejected -/
+theorem lemma_segs_norwl (rest : List Char) (m : Nat) :
+    specSegs (splitAll '/' rest) m false =
+      if (pySplit '/' m rest).length ≤ m then some (pySplit '/' m rest)
+      else if (pySplit '/' m rest)[m]? = some [] then some ((pySplit '/' m rest).take m) else none := by
+  unfold specSegs
+  simp only [Bool.false_eq_true, if_false]
+  by_cases ha : (splitAll '/' rest).length ≤ m + 1
+  · rw [pySplit_eq_splitAll '/' m rest ha]
+    by_cases hb : (splitAll '/' rest).length ≤ m
+    · simp [hb]
+    · have he : (splitAll '/' rest).length = m + 1 := by omega
+      simp only [he, true_and]
+      rw [List.getLast?_eq_getElem?, he]; simp
+  · have hf := pySplit_eq_fold '/' m rest (by omega)
+    have hj : joinSep '/' ((splitAll '/' rest).drop m) ≠ [] :=
+      joinSep_two_ne_nil _ _ (by simp; omega)
+    have hl : (pySplit '/' m rest).length = m + 1 := by
+      rw [hf]; simp; omega
+    have hg : (pySplit '/' m rest)[m]? = some (joinSep '/' ((splitAll '/' rest).drop m)) := by
+      rw [hf]; rw [List.getElem?_append_right (by simp; omega)]; simp
+      have : min m (splitAll '/' rest).length = m := by omega
+      simp [this]
+    rw [if_neg (by omega), if_neg (by omega), if_neg (by omega), hg, if_neg (by simpa using hj)]
+
+theorem lemma_slice_cons {α} (a : α) (l : List α) (n : Nat) : slice (a :: l) 1 (n + 1) = l.take n := by
+  simp [slice]
+
+theorem lemma_finish (P : List (List Char)) (m : Nat) :
+    finish ([] :: P) (m + 1) = (P.take m).map some ++ List.replicate (m - (P.take m).length) none := by
+  simp [finish, lemma_slice_cons]
+
+theorem joinSep_append_nil (sep : Char) (l : List (List Char)) (h : l ≠ []) :
+    joinSep sep (l ++ [[]]) = joinSep sep l ++ [sep] := by
+  induction l with
+  | nil => exact absurd rfl h
+  | cons a t ih =>
+    cases t with
+    | nil => simp [joinSep]
+    | cons b t =>
+      have := ih (by simp)
+      simp only [List.cons_append] at this ⊢
+      simp [joinSep, this]
+
+theorem finish_length (segs : List (List Char)) (M : Nat) : (finish segs M).length = M - 1 := by
+  simp [finish, slice]; omega
+
+/-- what `specSegs` yields -/
+theorem specSegs_facts (rest : List Char) (m : Nat) (rwl : Bool) (segs : List (List Char)) (hm : 1 ≤ m)
+    (h : specSegs (splitAll '/' rest) m rwl = some segs) :
+    segs.length ≤ m ∧
+    (joinSep '/' segs = rest ∨ (rwl = false ∧ segs.length = m ∧ joinSep '/' segs ++ ['/'] = rest)) ∧
+    (∀ s ∈ segs.take (if rwl then m - 1 else m), '/' ∉ s) := by
+  have hns := splitAll_no_sep '/' rest
+  cases rwl with
+  | true =>
+    have h2 := lemma_segs_rwl rest m hm
+    rw [h] at h2; simp only [Option.some.injEq] at h2
+    refine ⟨?_, Or.inl ?_, ?_⟩
+    · rw [h2]; have := pySplit_length_le '/' (m - 1) rest; omega
+    · rw [h2]; exact joinSep_pySplit _ _ _
+    · simp only [if_true]
+      unfold specSegs at h; simp only [if_true] at h
+      split at h
+      · rename_i hl
+        simp only [Option.some.injEq] at h; subst h
+        intro s hs
+        rw [List.take_append_of_le_length (by simp; omega)] at hs
+        exact hns s (List.mem_of_mem_take (List.mem_of_mem_take hs))
+      · simp only [Option.some.injEq] at h; subst h
+        intro s hs; exact hns s (List.mem_of_mem_take hs)
+  | false =>
+    simp only [Bool.false_eq_true, if_false]
+    unfold specSegs at h; simp only [Bool.false_eq_true, if_false] at h
+    split at h
+    · rename_i hl
+      simp only [Option.some.injEq] at h; subst h
+      exact ⟨hl, Or.inl (joinSep_splitAll _ _), fun s hs => hns s (List.mem_of_mem_take hs)⟩
+    · split at h
+      · rename_i hl
+        simp only [Option.some.injEq] at h; subst h
+        obtain ⟨hl1, hl2⟩ := hl
+        have hne : (splitAll '/' rest).take m ≠ [] := by
+          intro hh; rw [List.take_eq_nil_iff] at hh; rcases hh with hh | hh
+          · omega
+          · exact splitAll_ne_nil _ _ hh
+        have hsplit : splitAll '/' rest = (splitAll '/' rest).take m ++ [[]] := by
+          have h3 := List.take_append_drop m (splitAll '/' rest)
+          have h4 : (splitAll '/' rest).drop m = [[]] := by
+            have hlen : ((splitAll '/' rest).drop m).length = 1 := by simp; omega
+            match hd : (splitAll '/' rest).drop m, hlen with
+            | [x], _ =>
+              have : (splitAll '/' rest).getLast? = some x := by
+                rw [← h3, hd]; simp
+              rw [this] at hl2; simp at hl2; simp [hl2]
+          rw [h4] at h3; exact h3.symm
+        refine ⟨by simp; omega, Or.inr ⟨trivial, by simp; omega, ?_⟩, fun s hs => hns s (List.mem_of_mem_take (List.mem_of_mem_take hs))⟩
+        rw [← joinSep_append_nil _ _ hne, ← hsplit]; exact joinSep_splitAll _ _
+      · simp at h
 end Oslo.Split
